@@ -197,3 +197,14 @@ package reghttp
 //@   infunc wrapTransport\)\.RoundTrip$
 //@   where not-the-response-headers: key != "resp-headers"
 //@   requires only-the-censored-copy-is-logged: $unbox(value, http.Header) == $logHdr && $authChecked && ($authSeen ==> $authMasked)
+
+// C12 status classification: an answer that signals a transient condition of the server or of the
+// path to it (408 Request Timeout, 429 Too Many Requests, 500, 502, 504) backs the host off but keeps
+// it in the list of this request, so that the retry budget can absorb it: where the attempt turns
+// such an answer into an error, the host has not been marked for removal.
+//@ callsite HTTPError(statusCode)
+//@   prop C12
+//@   name HTTPError/classified
+//@   in ~/internal/reghttp
+//@   infunc Resp\)\.next\$1$
+//@   requires a-transient-status-keeps-the-host: (caller.statusCode == 408 || caller.statusCode == 429 || caller.statusCode == 500 || caller.statusCode == 502 || caller.statusCode == 504) ==> !caller.dropHost && caller.backoff
